@@ -375,7 +375,7 @@ func (d *driver) one(c Class, fault string, cc concrete, phase string) {
 	r := d.m.expect(d.id(), c, fault, phase+": "+c.Type+" "+cc.what)
 	r.wantLimit = fault == "ratelimit"
 	o, err := d.rawRequest(protoOf(c.Type), cc.bytes)
-	replay := map[string]any{"class": c, "fault": fault, "request": cc.what, "bytes": fmt.Sprintf("%x", cc.bytes), "phase": phase}
+	replay := map[string]any{"run": r.ID, "class": c, "fault": fault, "request": cc.what, "bytes": fmt.Sprintf("%x", cc.bytes), "phase": phase}
 	sig := func(s string) string {
 		cl := c.Bytes
 		switch {
